@@ -175,6 +175,8 @@ func ComputeRegistryProcessData(spec *common.Spec, flats []common.FlatValidator,
 		}
 		if exit > exitQueueEnd {
 			exitQueueEnd = exit
+			// a later exit epoch starts its own churn count
+			exitQueueEndChurn = 0
 		}
 		if exit == exitQueueEnd {
 			exitQueueEndChurn++
